@@ -171,6 +171,8 @@ def prop_tree(case, walk=None, max_depth=10, max_levels=1500):
     if any(m == 'fn' for *_, m in model.spont) or any(m == 'fn' for *_, m in model.induced):
         classes.append('rate_function')
     nt = flags['deep'] >= 3 and len(kinds) >= 2 and flags['induced']
+    if any(t_[0] == t_[1] for t_ in case['spont']) or any(t_[1] == t_[2] for t_ in case['induced']):
+        classes.append('null-transition')
     res = Result(fails, nontrivial=nt, classes=classes + (['nontrivial'] if nt else []))
     res.stats = stats
     return res
@@ -201,11 +203,14 @@ def spec_case(draw):
                                  family=draw(st.sampled_from(['random', 'complete', 'cycle', 'star', 'tree', 'path']))))
     n = len(gc['nodes'])
     spont, induced = [], []
-    pairs = [(a, b) for a in names for b in names if a != b]
+    # transitions that leave the status unchanged (a logged 'I'->'I' report event, ('X','A')->('X','A')) are legal specifications:
+    # the simulator's own comments cater for old_status == new status
+    null_ok = draw(st.integers(0, 3)) == 0
+    pairs = [(a, b) for a in names for b in names if a != b or null_ok]
     for (a, b) in pairs:
         if draw(st.integers(0, 2)) == 0:
             spont.append([a, b, draw(RATE), draw(st.sampled_from([None, None, 'label', 'fn']))])
-    triples = [(a, b, c) for a in names for b in names for c in names if b != c]
+    triples = [(a, b, c) for a in names for b in names for c in names if b != c or null_ok]
     k = draw(st.integers(1, 4))
     idx = draw(st.lists(st.integers(0, len(triples) - 1), min_size=k, max_size=k, unique=True))
     for i in idx:
